@@ -1,12 +1,12 @@
-(* C14 - Dependency fields parse to exactly the structure they spell (partial: proved for
-   whole fields - comma-separated groups of "|"-separated alternatives, arbitrary white space,
-   line breaks included, around every alternative and inside its parentheses and brackets - that
+(* C14 - Dependency fields parse to exactly the structure they spell.
+   Proved for whole fields - comma-separated groups of "|"-separated alternatives, arbitrary white
+   space, line breaks included, around every alternative and inside its parentheses and brackets:
    parsing yields exactly the groups and alternatives in order with their names, operators,
-   versions and architectures, and that the reported names are exactly those mentioned; proved
-   for one alternative: canonical spelling, round trip through the string form, ValueError for
-   a clause without operator or with nothing but an operator.  NOT proved: the round trip of the
-   string form of a whole field, and the more-than-one-operator error clause; decided by
-   co-execution on rendered abstract fields). *)
+   versions and architectures; the reported names are exactly those mentioned; the string form is
+   the canonical single-spaced spelling (", " and " | " separators) and parses back to an equal
+   object; a version clause without operator, with nothing but an operator, or with two operators
+   raises ValueError.  The grammar is Spec/DepsGrammar.v (tokens without white space and without
+   the delimiters of their position). *)
 From Coq Require Import String.
 From Coq Require Import NArith List Bool.
 From DI Require Import Result PyStr Deps DepsGrammar DepsParseFacts DepsFieldFacts.
@@ -75,6 +75,19 @@ Example C14_whole_field :
               OrRel [VRel (lit "python3:any") (lit "<<") (lit "3.12~") [lit "!i386"; lit "linux-any"]; Rel (lit "python") []];
               Rel (lit "g++") []]).
 Proof. vm_compute. reflexivity. Qed.
+
+(* the string form of a whole field parses back to an equal object *)
+Theorem C14_field_str_roundtrip : forall gs, Forall (fun g => g <> [] /\ Forall wf_alt g) gs ->
+  parse_depends (rel_str (AndRel (map tree_alts gs))) = Ok (AndRel (map tree_alts gs)).
+Proof. exact field_str_roundtrip. Qed.
+Print Assumptions C14_field_str_roundtrip.
+
+(* more than one operator in a version clause *)
+Theorem C14_bad_clause_two_operators : forall n o1 x1 o2 x2,
+  wf_name n -> wf_op o1 -> wf_version x1 -> wf_op o2 -> wf_version x2 ->
+  parse_relationship (n ++ lit " (" ++ (o1 ++ [32] ++ x1 ++ [32] ++ o2 ++ [32] ++ x2) ++ [41]) = Raise ValueError.
+Proof. exact bad_clause_two_operators. Qed.
+Print Assumptions C14_bad_clause_two_operators.
 
 (* a concrete field meets the hypotheses *)
 Example C14_nonvacuous_field :
